@@ -17,7 +17,7 @@ from ..runner import Skip, Violation
 ID = 'C06'
 LEVEL = 'exploration'
 TECHNIQUE = 'enumeration of all nodes of generated / real programs; oracle: tokenize + CPython positions, brute-force scan for location search'
-RULE = ('Programs: seeded slice of real files (windows), synthetic templates, maintainers\' snippets and Hypothesis-drawn '
+RULE = ('Programs: seeded slice of real files (windows), synthetic templates, 20 delimiter-laden programs (the delimiter a computed location searches for also occurs inside the neighbouring children, strings and comments), maintainers\' snippets and Hypothesis-drawn '
         'layout-mutated windows, each also in a multi-byte variant (identifiers renamed to non-ASCII, multi-byte comments and '
         'strings). For every node: loc == CPython position converted bytes->chars by the reference converter, FST lineno.. == '
         'AST attributes, get_src(*loc) == byte-sliced segment; operator loc covers exactly the operator token(s) found as the '
